@@ -4,8 +4,8 @@
    (any number of contexts), [es] = ANY schedule: any interleaving, of any length, of Add / Cancel
    / Size calls, context ends and steps of the watcher goroutine (whose program counter includes
    the window between its last RUnlock and cancel()). *)
-From Kit Require Import C20.Model C20.Spec C20.Check C20.Proofs C20.Proofs_script C20.Proofs_main
-  C20.Proofs_nested.
+From Kit Require Import C20.Model C20.ModelLock C20.Spec C20.Check C20.Proofs C20.Proofs_script
+  C20.Proofs_main C20.Proofs_nested C20.Proofs_lock.
 
 (* NEVER EARLY.  Whenever the pool's context is done, Cancel was called or every member has
    ended.  "Member" is the property's notion, made explicit by the ghost field [members] (see
@@ -257,3 +257,66 @@ Theorem C20_script_watcher_ends_with_pool : forall pre ctxs ops,
          (s0 :: script_states s0 (ops ++ end_all (pre ++ ctxs ++ op_ids ops))).
 Proof. exact script_watcher_ends_with_pool. Qed.
 Print Assumptions C20_script_watcher_ends_with_pool.
+
+(* ADD IS NOT ATOMIC: THE WRITE LOCK IN THE STATE (ModelLock.v).  Add = [LAddBegin m] (Lock(), the
+   select; the Add is in flight, holding the lock, while the caller's ctx.Done() runs) then
+   [LAddEnd] (append, Unlock()); in flight Cancel / Size / another Add and the watcher's return
+   from its select are disabled, ends of contexts and the watcher's deferred cancel() are not.
+   REFINEMENT: every schedule of that model, of any length, is a schedule of the atomic model of
+   Model.v with each Add placed where it took the lock ([ahead] = the state with the append of
+   the Add in flight already done). *)
+Theorem C20_lock_refines_atomic : forall pre ctxs les ls,
+  lrun (new_pool pre ctxs, None) les = Some ls ->
+  run (new_pool pre ctxs) (flat_map flat les) = Some (ahead ls).
+Proof. exact lrun_refines_init. Qed.
+Print Assumptions C20_lock_refines_atomic.
+
+(* ... hence, for ALL lock-aware schedules (arbitrary code of the caller running inside Add):
+   never early - counting the context of an Add in flight as offered when the lock was taken - *)
+Theorem C20_lock_never_early : forall pre ctxs les ls,
+  lrun (new_pool pre ctxs, None) les = Some ls ->
+  ctx_done (fst ls) = true ->
+  cancel_called (fst ls) = true \/ all_done (fst ls) (members (ahead ls)).
+Proof. exact locked_never_early. Qed.
+Print Assumptions C20_lock_never_early.
+
+(* ... Size is zero after Cancel ... *)
+Theorem C20_lock_size_zero_after_cancel : forall pre ctxs les s,
+  lrun (new_pool pre ctxs, None) les = Some (s, None) ->
+  cancel_called s = true -> size s = 0%Z.
+Proof. exact locked_size_zero_after_cancel. Qed.
+Print Assumptions C20_lock_size_zero_after_cancel.
+
+(* ... and the watcher goroutine ends exactly with the pool's context. *)
+Theorem C20_lock_watcher_ends_with_pool : forall pre ctxs les ls,
+  lrun (new_pool pre ctxs, None) les = Some ls ->
+  (ctx_done (fst ls) = true <-> watcher_gone (fst ls) = true).
+Proof. exact locked_watcher_ends_with_pool. Qed.
+Print Assumptions C20_lock_watcher_ends_with_pool.
+
+(* IN FLIGHT nothing that needs the lock is enabled ... *)
+Theorem C20_flight_blocks : forall s f,
+  lstep (s, Some f) (LEv Cancel) = None /\ lstep (s, Some f) (LEv Size) = None /\
+  (forall m, lstep (s, Some f) (LEv (AddCtx m)) = None) /\
+  (forall m, lstep (s, Some f) (LAddBegin m) = None).
+Proof. exact flight_blocks. Qed.
+Print Assumptions C20_flight_blocks.
+
+(* ... and, unless the watcher is already past its last RUnlock (the exit window, see
+   flight_exit_window in Proofs_lock.v), a whole flight - any number of context ends and watcher
+   attempts - leaves the watcher, the pool's context and Size where they were. *)
+Theorem C20_flight_freezes_pool : forall les s f ls',
+  lrun (s, Some f) les = Some ls' -> forallb is_lev les = true -> pc s <> W_exiting ->
+  exists s', ls' = (s', Some f) /\ pc s' = pc s /\ ctx_done s' = ctx_done s /\ size s' = size s.
+Proof. exact flight_freezes_pool. Qed.
+Print Assumptions C20_flight_freezes_pool.
+
+(* THE NESTED CASES.  What Check.v computes with the lock-aware model for every nested case - is
+   ctx.Done() called, does a nested Cancel()/Size() return (for ended members: does the pool end)
+   inside the callback, is the pool's context done there - is, for EVERY creation, prefix script,
+   offered context and list of nested operations: called iff the pool has not ended, and nothing
+   completes inside.  (Until now this prediction was written into Check.v by hand.) *)
+Theorem C20_nested_flight_spec : forall pre ctxs ops1 m nops,
+  nested_flight pre ctxs ops1 m nops = (nested_called pre ctxs ops1, false, false).
+Proof. exact nested_flight_spec. Qed.
+Print Assumptions C20_nested_flight_spec.
